@@ -211,3 +211,6 @@ class Nameplate:
     S5B.upon(lost, enter=S5A, outputs=[])
     S5.upon(release, enter=S5, outputs=[])  # mailbox is lazy
     S5.upon(close, enter=S5, outputs=[])
+    # the code can arrive late: an "allocated" response (or a set_code()
+    # call) after an error or close() has already shut us down
+    S5.upon(_set_nameplate, enter=S5, outputs=[])
